@@ -29,8 +29,16 @@ ANCHORED = {   # header -> checks whose properties are anchored in it (C20 is ju
     "st_stdio.h": ["C17"],
     "st_format.h": ["C17", "C04"],
     "st_string.h": ["C04", "C18", "C19"],
+    "st_formatter.h": ["C17", "C18"],
+    "st_utf_conv.h": ["C18", "C19", "C04"],
+    "st_codecs.h": ["C18", "C19"],
 }
-STRING_RANGES = [(96, 140), (310, 540), (2740, 2810)]      # st_string.h: _set_utf8, set/operator= family, operator+= (the mutators C04/C18/C19 name)
+RANGES = {   # only the regions the decided properties are anchored in (the rest of these files belongs to not-applicable properties)
+    "st_string.h": [(96, 140), (310, 540), (2740, 2810)],      # _set_utf8, set/operator= family, operator+=
+    "st_formatter.h": [(97, 134), (300, 336)],                 # format_writer, the shared driver all sinks plug into
+    "st_utf_conv.h": [(53, 669)],                              # public wrappers: measure, allocate, convert, raise
+    "st_codecs.h": [(30, 115)],
+}
 
 def sh(cmd, **kw):
     return subprocess.run(cmd, stdout=subprocess.PIPE, stderr=subprocess.STDOUT, text=True, errors="replace", **kw)
@@ -39,8 +47,8 @@ def candidates(fname, lines):
     """yield (lineno, description, new_lines_for_that_position) - purely textual, one site at a time"""
     out = []
     def in_range(i):
-        if fname != "st_string.h": return True
-        return any(a <= i + 1 <= b for a, b in STRING_RANGES)
+        if fname not in RANGES: return True
+        return any(a <= i + 1 <= b for a, b in RANGES[fname])
     code = lambda l: l.strip() and not l.strip().startswith(("//", "*", "/*", "#")) and "ST_ASSERT" not in l and "static_assert" not in l
     for i, l in enumerate(lines):
         if not in_range(i) or not code(l): continue
